@@ -72,6 +72,7 @@ struct Shared<H: HK> {
     failures: AtomicU64,
     deferred: AtomicU64,
     overlapped: AtomicU64,
+    shared_sessions: AtomicU64,
     violation: Mutex<Option<String>>,
     stop: AtomicBool,
     writers_done: AtomicU64,
@@ -131,6 +132,46 @@ fn reader<H: HK>(sh: Arc<Shared<H>>, stamps: Vec<Key>, seed: u64, iters: usize) 
             }
         }
         let ver = version.unwrap();
+        // the same session used from two more threads at once (Session is Sync): same single state
+        if s.below(3) == 0 {
+            let sess_ref = &sess;
+            let stamps_ref = &stamps;
+            let results: Vec<Result<(), String>> = std::thread::scope(|sc| {
+                let hs: Vec<_> = (0..2usize)
+                    .map(|t| {
+                        sc.spawn(move || -> Result<(), String> {
+                            for (i, k) in stamps_ref.iter().enumerate() {
+                                if i % 2 != t {
+                                    continue;
+                                }
+                                let got = guard("Session::read", || sess_ref.read(*k)).map_err(|f| f.sig())?;
+                                let Some(val) = got else { return Err(format!("stamp key {} reads as absent through a shared session", hx8(k))) };
+                                if val != stamp_value(ver, k) {
+                                    return Err(format!(
+                                        "reads through ONE session from two threads observed two committed states: stamp version {ver} on the owning thread, {} on a helper thread",
+                                        version_of(&val)
+                                    ));
+                                }
+                                let p = guard("Session::prove", || sess_ref.prove(*k)).map_err(|f| f.sig())?;
+                                let vh = H::KIND.hash_value(&val);
+                                let ok = p.verify::<H::N>(k.view_bits::<Msb0>(), prev_root).ok().and_then(|v| v.confirm_value(&LeafData { key_path: *k, value_hash: vh }).ok());
+                                if ok != Some(true) {
+                                    return Err(format!("a proof made on a helper thread through a shared session does not confirm the value read (stamp version {ver})"));
+                                }
+                            }
+                            Ok(())
+                        })
+                    })
+                    .collect();
+                hs.into_iter().map(|h| h.join().unwrap_or_else(|_| Err("helper thread panicked".into()))).collect()
+            });
+            for r in results {
+                if let Err(m) = r {
+                    return sh.fail(format!("reader: {m}"));
+                }
+            }
+            sh.shared_sessions.fetch_add(1, Ordering::Relaxed);
+        }
         // the session's base root is the root of exactly that version
         let want = sh.roots.lock().unwrap().get(&ver).cloned();
         match want {
@@ -307,6 +348,7 @@ fn run_case<H: HK>(case: &C15Case, scratch: &Scratch) -> Result<CaseInfo, Violat
         failures: AtomicU64::new(0),
         deferred: AtomicU64::new(0),
         overlapped: AtomicU64::new(0),
+        shared_sessions: AtomicU64::new(0),
         violation: Mutex::new(None),
         stop: AtomicBool::new(false),
         writers_done: AtomicU64::new(0),
@@ -463,6 +505,7 @@ fn run_case<H: HK>(case: &C15Case, scratch: &Scratch) -> Result<CaseInfo, Violat
     info.add("commits_succeeded", chain.len() as u64);
     info.add("commits_rejected", sh.failures.load(Ordering::Relaxed));
     info.add("nonblocking_deferred", sh.deferred.load(Ordering::Relaxed));
+    info.add("sessions_used_from_three_threads", sh.shared_sessions.load(Ordering::Relaxed));
 
     // phase B: readers + one rollback thread
     let n_rb = (case.rollbacks as usize).min(chain.len());
@@ -516,7 +559,7 @@ impl Check for C15 {
     const ID: &'static str = "C15";
     const LEVEL: &'static str = "exploration";
     fn rule() -> String {
-        "generated thread programs on one handle: R in 1..4 reader threads (begin session; read a stamp set of 8 keys three times with sleeps / yields in between; prove 2 of them; drop) and W in 1..3 \
+        "generated thread programs on one handle: R in 1..4 reader threads (begin session; read a stamp set of 8 keys three times with sleeps / yields in between; prove 2 of them; in a third of the sessions two more threads read and prove through the SAME session at once; drop) and W in 1..3 \
          writer threads (begin session, read, finish a changeset rewriting the whole stamp set with a fresh version id plus random keys, then commit - blocking, or non-blocking with retry, as session \
          changeset or overlay), 4..24 iterations each, followed by a phase with readers and a thread rolling back k commits; schedules are perturbed by seeded yields / sleeps at nomt's lock acquisition \
          points (hook). Oracle: (a) inside one session all stamp reads carry one version id, session.prev_root() is the root of exactly that version, proofs verify against it and confirm the values \
